@@ -360,11 +360,14 @@ func fromConfLookup(v ssa.Value, seen map[ssa.Value]bool, depth int) bool {
 // manager) and only then stores it in clustersMap, where request paths find it by name. If the store comes first, every
 // request that looks the cluster up during the handler sees a cluster without hosts ("no healthy upstream" caused only by
 // the swap). Clause: no call through a function-typed value that receives the stored object is reachable after the store.
-func c12PublishAfterInit(c *Ctx) {
+func c12PublishAfterInit(c *Ctx) { publishAfterInit(c, "C12.R6") }
+
+// publishAfterInit is shared by C12.R6 and C05.R6.
+func publishAfterInit(c *Ctx, rule string) {
 	pkg := "pkg/upstream/cluster"
 	fn := c.M(pkg, "clusterManager", "UpdateCluster")
 	if fn == nil {
-		c.Unresolved("C12.R6", "clusterManager.UpdateCluster")
+		c.Unresolved(rule, "clusterManager.UpdateCluster")
 		return
 	}
 	fk := funcKey(fn)
@@ -378,7 +381,7 @@ func c12PublishAfterInit(c *Ctx) {
 		}
 	}
 	if len(stores) != 1 {
-		c.Fail("C12.R6", fk+":single-publish", fn.Pos(), fmt.Sprintf("expected exactly one clustersMap.Store in UpdateCluster, found %d", len(stores)))
+		c.Fail(rule, fk+":single-publish", fn.Pos(), fmt.Sprintf("expected exactly one clustersMap.Store in UpdateCluster, found %d", len(stores)))
 		return
 	}
 	st := stores[0]
@@ -412,8 +415,8 @@ func c12PublishAfterInit(c *Ctx) {
 	if late != nil {
 		pos = late.Pos()
 	}
-	c.Check("C12.R6", fk+":publish-after-init", pos, nInit >= 1 && late == nil, "the new cluster is stored in clustersMap only after the update handler has filled it", "the new cluster is made visible in clustersMap before the update handler has filled it: a request that looks the cluster up during the update finds no hosts and fails only because of the swap")
+	c.Check(rule, fk+":publish-after-init", pos, nInit >= 1 && late == nil, "the new cluster is stored in clustersMap only after the update handler has filled it", "the new cluster is made visible in clustersMap before the update handler has filled it: a request that looks the cluster up during the update finds no hosts and fails only because of the swap")
 	// and the object stored is the one that was built and handed to the handler (not the old one)
 	_, isCallRes := obj.(*ssa.Call)
-	c.Check("C12.R6", fk+":publishes-new-object", st.Pos(), isCallRes && methodName(obj.(*ssa.Call).Common()) == "NewCluster", "the stored object is the cluster built from the new configuration", "the object stored in clustersMap is not the cluster built from the new configuration")
+	c.Check(rule, fk+":publishes-new-object", st.Pos(), isCallRes && methodName(obj.(*ssa.Call).Common()) == "NewCluster", "the stored object is the cluster built from the new configuration", "the object stored in clustersMap is not the cluster built from the new configuration")
 }
